@@ -41,6 +41,24 @@ def dict_keys_values(d):
     return {k.value: v for k, v in zip(d.keys, d.values) if isinstance(k, ast.Constant)}
 
 
+def _store_carries(loop, store, call):
+    """the value stored per key is the sorted list itself, a local holding it, or that local with something put in FRONT of it
+    (`formats = preferred + formats`): the sorted formats always end up in the table entry"""
+    v = store.value
+    if v is call:
+        return True
+    if not isinstance(v, ast.Name):
+        return False
+    defs = [a for a in ast.walk(loop) if isinstance(a, ast.Assign) and len(a.targets) == 1 and isinstance(a.targets[0], ast.Name) and a.targets[0].id == v.id]
+    if not defs or defs[0].value is not call:
+        return False
+    for a in defs[1:]:
+        ok = isinstance(a.value, ast.BinOp) and isinstance(a.value.op, ast.Add) and isinstance(a.value.right, ast.Name) and a.value.right.id == v.id
+        if not ok:
+            return False
+    return True
+
+
 def nsp_order_table(ctx):
     """{order key: set of literal prefixes its format list is sorted by} of _no_spaces_parser.date_formats, read from the dict literal
     (`"%m%d%y": sorted(self._all, key=lambda x: x.lower().startswith("%m%d%y"), ..)`) or from the loop / comprehension form that builds the
@@ -69,6 +87,14 @@ def nsp_order_table(ctx):
         if len(p) == 1 and _re.search(r"\.startswith\(%s\)" % _re.escape(p[0]), t) and "sorted(self._all" in t.replace("cls._all", "self._all") and "reverse=True" in t:
             return call.args[0].id
         return None
+    def sorts_by(call, var_):
+        """sorted(self._all, key=lambda x: x.lower().startswith(<var_>), reverse=True) written out in place"""
+        if not (isinstance(call, ast.Call) and ast.unparse(call.func) == "sorted" and call.args and ast.unparse(call.args[0]) in ("self._all", "cls._all")):
+            return False
+        kw = {k.arg: k.value for k in call.keywords}
+        k_ = kw.get("key")
+        return (isinstance(k_, ast.Lambda) and len(k_.args.args) == 1 and isinstance(kw.get("reverse"), ast.Constant) and kw["reverse"].value is True
+                and " ".join(ast.unparse(k_.body).split()) == "%s.lower().startswith(%s)" % (k_.args.args[0].arg, var_))
     keys = None
     var = None
     for n in iter_own_nodes(nsp.node):
@@ -79,17 +105,17 @@ def nsp_order_table(ctx):
                 continue
         elif isinstance(n, ast.For) and isinstance(n.target, ast.Name):
             it, tgt = n.iter, n.target
-            calls = [c for c in ast.walk(n) if isinstance(c, ast.Call) and helper_sorts_by_param(c) == tgt.id]
+            calls = [c for c in ast.walk(n) if isinstance(c, ast.Call) and (helper_sorts_by_param(c) == tgt.id or sorts_by(c, tgt.id))]
             stores = [s_ for s_ in ast.walk(n) if isinstance(s_, ast.Assign) and isinstance(s_.targets[0], ast.Subscript)
                       and isinstance(s_.targets[0].slice, ast.Name) and s_.targets[0].slice.id == tgt.id]
-            val = calls[0] if calls and stores else None
+            val = calls[0] if len(calls) == 1 and len(stores) == 1 and _store_carries(n, stores[0], calls[0]) else None
         if it is None or val is None:
             continue
         try:
             ks = list(ast.literal_eval(it))
         except Exception:
             continue
-        v = helper_sorts_by_param(val) if isinstance(val, ast.Call) else None
+        v = (tgt.id if sorts_by(val, tgt.id) else helper_sorts_by_param(val)) if isinstance(val, ast.Call) else None
         if v == tgt.id and all(isinstance(k, str) for k in ks):
             keys, var = ks, v
     if keys:
@@ -122,3 +148,128 @@ def path_parts(e):
              "os.path.dirname(os.path.abspath(__file__))"):
         return []
     return None
+
+
+def date_order_results(ctx):
+    """what resolve_date_order answers for each key of date_order_chart, with and without `lst`: {key: (components | KeyError, directives |
+    KeyError)}; decided by evaluating the function over the module's literal tables (the component table may be a local or a module
+    constant, lists or tuples, copied or not).  Raises minieval.Unknown when the function does something else."""
+    from ..core.minieval import Evaluator, Unknown
+    from ..core.data import module_literal
+    ix = ctx.ix
+    rdo = ix.func("dateparser.parser:resolve_date_order")
+    consts = {}
+    for name, vals in rdo.module.assigns.items():
+        if len(vals) == 1:
+            try:
+                consts[name] = ast.literal_eval(vals[0])
+            except Exception:
+                pass
+    chart = consts.get("date_order_chart")
+    if not isinstance(chart, dict):
+        raise Unknown("date_order_chart is not a literal")
+
+    def oracle(e, env):
+        raise Unknown("")
+    p = rdo.params()
+    out = {}
+    for k in chart:
+        res = []
+        for lst in (True, None):
+            try:
+                v = Evaluator(oracle, consts).call(rdo.node, {p[0]: k, p[1]: lst})
+            except KeyError:
+                v = KeyError
+            res.append(list(v) if isinstance(v, tuple) else v)
+        out[k] = tuple(res)
+    return out, rdo, chart
+
+
+def string_template(e):
+    """(template with `{}` for each hole, [hole expressions]) of a string built by '..{}..'.format(a), f'..{a}..', '..%s..' % a or
+    'x' + a + 'y'; None when it is none of these"""
+    if isinstance(e, ast.Constant) and isinstance(e.value, str):
+        return e.value.replace("{", "{{").replace("}", "}}"), []
+    if isinstance(e, ast.Call) and isinstance(e.func, ast.Attribute) and e.func.attr == "format" and isinstance(e.func.value, ast.Constant) \
+            and isinstance(e.func.value.value, str) and not e.keywords and e.func.value.value.count("{}") == len(e.args) \
+            and e.func.value.value.replace("{}", "").count("{") == 0:
+        return e.func.value.value, list(e.args)
+    if isinstance(e, ast.JoinedStr):
+        t, holes = "", []
+        for v in e.values:
+            if isinstance(v, ast.Constant) and isinstance(v.value, str):
+                t += v.value.replace("{", "{{").replace("}", "}}")
+            elif isinstance(v, ast.FormattedValue) and v.conversion in (-1, 115) and v.format_spec is None:
+                t += "{}"
+                holes.append(v.value)
+            else:
+                return None
+        return t, holes
+    if isinstance(e, ast.BinOp) and isinstance(e.op, ast.Mod) and isinstance(e.left, ast.Constant) and isinstance(e.left.value, str):
+        args = list(e.right.elts) if isinstance(e.right, ast.Tuple) else [e.right]
+        s_ = e.left.value
+        if s_.count("%s") == len(args) and s_.replace("%s", "").count("%") == 0 and "{" not in s_ and "}" not in s_:
+            return s_.replace("%s", "{}"), args
+        return None
+    if isinstance(e, ast.BinOp) and isinstance(e.op, ast.Add):
+        l, r = string_template(e.left), string_template(e.right)
+        if l is None:
+            l = ("{}", [e.left])
+        if r is None:
+            r = ("{}", [e.right])
+        if not l[1] and not r[1]:
+            return l[0] + r[0], []
+        return l[0] + r[0], l[1] + r[1]
+    return None
+
+
+def relative_pattern_model(ctx):
+    """how Locale._generate_relative_translations turns the patterns of one `relative-type-regex` key into one compiled expression:
+    {"template": '^(?:{})$', "flags": {"U", "I"}, "body": text of the expression that fills the hole with the locals of the loop body
+    written out}; None when no single re.compile(<template with one hole>, <flags>) is found"""
+    f = ctx.ix.func("dateparser.languages.locale:Locale._generate_relative_translations")
+    found = None
+    for parent in ast.walk(f.node):
+        for fld in ("body", "orelse"):
+            blk = getattr(parent, fld, None)
+            if not isinstance(blk, list):
+                continue
+            for i, st in enumerate(blk):
+                if not isinstance(st, (ast.Assign, ast.Expr, ast.Return)):
+                    continue
+                for c in ast.walk(st):
+                    if isinstance(c, ast.Call) and ast.unparse(c.func) in ("re.compile", "regex.compile") and c.args:
+                        if found is not None:
+                            return None
+                        found = (blk, i, c)
+    if found is None:
+        return None
+    blk, i, c = found
+    import copy
+    arg0 = c.args[0]
+
+    def subst(e, upto):
+        e = copy.deepcopy(e)
+        for st in reversed(blk[:upto]):
+            if isinstance(st, ast.Assign) and len(st.targets) == 1 and isinstance(st.targets[0], ast.Name):
+                nm = st.targets[0].id
+
+                class S(ast.NodeTransformer):
+                    def visit_Name(self, node):
+                        return copy.deepcopy(st.value) if node.id == nm and isinstance(node.ctx, ast.Load) else node
+                if any(isinstance(x, ast.Name) and x.id == nm for x in ast.walk(e)):
+                    e = S().visit(e)
+        return e
+    tpl = string_template(subst(arg0, i)) if not isinstance(arg0, ast.Name) else string_template(subst(arg0, i))
+    if tpl is None or len(tpl[1]) != 1:
+        return None
+    flags = set()
+    fl = c.args[1] if len(c.args) > 1 else next((k.value for k in c.keywords if k.arg == "flags"), None)
+    if fl is not None:
+        for x in ast.walk(fl):
+            if isinstance(x, ast.Attribute):
+                flags.add({"UNICODE": "U", "IGNORECASE": "I"}.get(x.attr, x.attr))
+            elif isinstance(x, ast.BinOp) and not isinstance(x.op, ast.BitOr):
+                return None
+    body = " ".join(ast.unparse(subst(tpl[1][0], i)).split())
+    return {"template": tpl[0], "flags": flags, "body": body, "function": f}
